@@ -136,7 +136,7 @@ func GaloisElementsForTrace(params ParameterProvider, logN int) (galEls []uint64
 		case ring.Standard:
 			galEls = append(galEls, p.GaloisElementOrderTwoOrthogonalSubgroup())
 		case ring.ConjugateInvariant:
-			panic("cannot GaloisElementsForTrace: Galois element GaloisGen^-1 is undefined in ConjugateInvariant Ring")
+			// Trace skips the step for GaloisGen^-1 in the ConjugateInvariant ring: no key is needed for it.
 		default:
 			panic("cannot GaloisElementsForTrace: invalid ring type")
 		}
